@@ -46,7 +46,7 @@ def parse(s):
     return json.loads(s)
 
 
-def exprs_for(o, fn, kw, rng, npert):
+def exprs_for(o, fn, kw, rng, npert, mags=None):
     ps, qs = o["p"], o["q"]
     n = min(len(ps), len(qs))
     ps, qs = ps[:n], qs[:n]
@@ -56,6 +56,11 @@ def exprs_for(o, fn, kw, rng, npert):
         # that a difference caused by a single differently rounded dot product (BLAS may fuse
         # multiply-add) is recognised as "margin not clear" with overwhelming probability
         mag = 3e-16 if (npert <= NPERT or kv % 2 == 0) else 2e-15
+        if mags:
+            # third look (exit decisions only, see c01.loop_correspondence): on ill-conditioned final simplices the closest
+            # point amplifies one differently rounded dot product to ~50 ulps of v_len_sq, and the relative-progress exit
+            # compares at 1 ulp
+            mag = mags[kv % len(mags)]
         variants.append([([rng.uniform(-mag, mag) for _ in range(3)],
                           [rng.uniform(-mag, mag) for _ in range(3)]) for _ in range(n)])
     ex = []
@@ -92,7 +97,7 @@ def close(x, y, rel, abs_):
     return bool(np.all(np.abs(x - y) <= abs_ + rel * np.maximum(np.abs(x), np.abs(y))))
 
 
-def compare(pid, cases, results, rng, L_of, tag="joltcorr", npert=NPERT):
+def compare(pid, cases, results, rng, L_of, tag="joltcorr", npert=NPERT, mags=None):
     """cases: list of dict(c1, c2, fns, kw, kw_i); results: worker outputs.
     Returns (stats, mismatches): mismatches = list of (case index, fn, text)."""
     exprs, idx = [], []
@@ -105,7 +110,7 @@ def compare(pid, cases, results, rng, L_of, tag="joltcorr", npert=NPERT):
             if "exc" in o or not o["p"]:
                 stats["skipped_exception"] += 1
                 continue
-            ex = exprs_for(o, fn, kw, rng, npert)
+            ex = exprs_for(o, fn, kw, rng, npert, mags)
             idx.append((i, fn, len(exprs), len(ex)))
             exprs += ex
     if not exprs:
